@@ -90,7 +90,7 @@ func buildC04(cfg *mon.Config) []*mon.Sub {
 	for _, kind := range allTokenizers {
 		kind := kind
 		ml := maxL
-		if !cfg.Quick() && (kind == "csvtab" || kind == "genericcpp") {
+		if !cfg.Quick() && (kind == "csvtab" || kind == "genericcpp" || kind == "csvq") {
 			ml = 4
 		}
 		subs = append(subs, &mon.Sub{
